@@ -43,6 +43,8 @@ func emitHDL(m *procbuilder.Machine, src []string, opt bool) {
 		conf.ReqRoot = rg
 		conf.Runinfo = new(procbuilder.RuntimeInfo)
 		conf.Runinfo.Init()
+		// the comment option must not change the hardware: on for every other program
+		conf.Commented_verilog = len(src)%2 == 1
 		m.Arch.Tag = "0"
 		if opt {
 			// record the destination registers the way basm does: through each opcode's own
@@ -228,6 +230,90 @@ func genValue(r *common.Rng, rsize int) string {
 		v &= 7
 	}
 	return strconv.FormatUint(v, 10)
+}
+
+// directed machines: every co-implemented opcode on its own (plus rset / j to load registers and
+// loop), at R = 1, 2, 3 (the templates special-case R == 1) and two register sizes, with every
+// (destination, source) register pair of interest and distinct non-zero operands — a wrong
+// part-select or operand order in ONE template cannot hide behind the random mix
+func directedCases() []struct {
+	s   archSpec
+	src []string
+} {
+	var res []struct {
+		s   archSpec
+		src []string
+	}
+	ops := append(append([]string{}, coImplAll...), coImplSmall...)
+	for _, op := range ops {
+		if op == "i2rw" || op == "r2owa" { // handshake opcodes: C04's nets
+			continue
+		}
+		for _, r := range []int{1, 2, 3} {
+			for _, rsize := range []int{8, 32} {
+				small := false
+				for _, o := range coImplSmall {
+					small = small || o == op
+				}
+				if small && rsize > 16 {
+					rsize = 16
+				}
+				s := archSpec{mode: "ha", rsize: rsize, r: r, n: 0, m: 0, l: 0, o: 6}
+				set := map[string]bool{op: true, "rset": true, "j": true}
+				sh := shape(op)
+				if strings.Contains(sh, "i") {
+					s.n = 3
+				}
+				if strings.Contains(sh, "o") {
+					s.m = 3
+				}
+				for o := range set {
+					s.ops = append(s.ops, o)
+				}
+				sort.Strings(s.ops)
+				nreg := 1 << uint(r)
+				last := nreg - 1
+				var src []string
+				for k := 0; k < nreg; k++ { // distinct, non-zero, never equal quotients
+					src = append(src, fmt.Sprintf("rset r%d %d", k, (37*(k+1)+11*k*k+3)%200+2))
+				}
+				pairs := [][2]int{{0, 1}, {1, 0}, {last, 0}, {0, last}, {last, last}}
+				switch sh {
+				case "":
+					src = append(src, op)
+				case "r":
+					for _, k := range []int{0, 1, last} {
+						src = append(src, fmt.Sprintf("%s r%d", op, k))
+					}
+				case "rv":
+					src = append(src, fmt.Sprintf("%s r%d %d", op, last, 77))
+				case "rr":
+					for _, pq := range pairs {
+						src = append(src, fmt.Sprintf("%s r%d r%d", op, pq[0], pq[1]))
+					}
+				case "a":
+					src = append(src, fmt.Sprintf("%s %d", op, len(src)+2), "rset r0 99")
+				case "ra":
+					src = append(src, fmt.Sprintf("rset r%d 0", last), fmt.Sprintf("%s r%d %d", op, last, len(src)+3), "rset r0 98",
+						fmt.Sprintf("%s r0 0", op))
+				case "ri":
+					for _, k := range []int{0, 1, 2} {
+						src = append(src, fmt.Sprintf("%s r%d i%d", op, (k+1)%nreg, k))
+					}
+				case "ro":
+					for _, k := range []int{0, 1, 2} {
+						src = append(src, fmt.Sprintf("%s r%d o%d", op, (k+1)%nreg, k))
+					}
+				}
+				src = append(src, "j 0")
+				res = append(res, struct {
+					s   archSpec
+					src []string
+				}{s, src})
+			}
+		}
+	}
+	return res
 }
 
 func genProgram(r *common.Rng, s archSpec) []string {
@@ -589,11 +675,14 @@ func main() {
 		fmt.Fprintln(os.Stderr, "usage: c01 sim <machines> <steps> | replay <file>")
 		os.Exit(2)
 	}
-	if os.Args[1] == "hdl" || os.Args[1] == "hdlopt" || os.Args[1] == "replayhdl" || os.Args[1] == "replayhdlopt" {
+	if os.Args[1] == "hdl" || os.Args[1] == "hdlopt" || os.Args[1] == "replayhdl" || os.Args[1] == "replayhdlopt" ||
+		os.Args[1] == "hdldir" || os.Args[1] == "hdldiropt" {
 		withHDL = true
 		hwOpt = strings.HasSuffix(os.Args[1], "opt")
 		if strings.HasPrefix(os.Args[1], "replay") {
 			os.Args[1] = "replay"
+		} else if strings.HasPrefix(os.Args[1], "hdldir") {
+			os.Args[1] = "directed"
 		} else {
 			os.Args[1] = "sim"
 		}
@@ -608,6 +697,11 @@ func main() {
 			for k := 0; k < 3; k++ {
 				runMachine(r, s, genProgram(r, s), steps, nil)
 			}
+		}
+	case "directed": // (via hdldir / hdldiropt) the directed per-opcode machines
+		r := common.NewRng(common.Seed())
+		for _, c := range directedCases() {
+			runMachine(r, c.s, c.src, 2*len(c.src)+4, nil)
 		}
 	case "replay":
 		f, err := os.Open(os.Args[2])
